@@ -308,6 +308,15 @@ theorem C06_refines_linkRun {now : Nat} {classic : Bool} {A : SysDir.Op → Prop
       exact (C06_ops_are_conn_ops a.core 0 now false).2.2.2.2.2.2.1
     rw [e]
     exact .step _ ih ha
+  | @attemptFail a ha _ ih =>
+    -- failed socket re-creation: `record_attempt` (core untouched), then `mark_for_recovery`
+    have hra : (a.recordAttempt now).core = a.core := by unfold FLink.recordAttempt; split <;> rfl
+    have e : proj (Hk.failedLink a now).core = applyOp (proj a.core) .resetRecovery := by
+      show proj (a.recordAttempt now).markForRecovery.core = _
+      rw [SysDir.markForRecovery_core, hra]
+      exact (C06_ops_are_conn_ops a.core 0 now false).2.2.2.2.2.2.1
+    rw [e]
+    exact .step _ ih ha
   | @reconnect a ha _ ih =>
     have e : proj (Hk.reconnectLink a now).core = applyOp (proj a.core) .resetReconnect := by
       rw [SysDir.reconnectLink_core]
@@ -745,43 +754,61 @@ theorem C06_direction_uplink (s : Sys.Sys F) (now cid : Nat) (data : Sys.Bytes) 
       (fun h => p1 (snk.1 ((hA _).1 h))) (fun h => p2 (ssk.1 ((hA _).1 h))) (fun h => p2 (sgk.1 ((hA _).1 h))) h
 
 /-- **Housekeeping tick** (`handle_housekeeping`): a link is torn down for reconnect (20000, congestion state
-cleared, not connected), or its window does not fall and stays in `[1000, 60000]` — and in CLASSIC mode its
+cleared, not connected) — or, ONLY when a socket re-creation failure is injected for its conn id and the
+re-creation of its reconnect attempt fails, marked for recovery (20000, congestion state KEPT, not connected) —,
+or its window does not fall and stays in `[1000, 60000]` — and in CLASSIC mode its
 window and congestion state are untouched (no time-based recovery) — fast recovery does not turn on, and turns
 off only at 12000 or more. -/
 theorem C06_direction_hk (s : Sys.Sys F) (now : Nat) (hr : RangeInv s) (j : Nat) (l l' : FLink F)
     (hl : s.links[j]? = some l) (hl' : (Sys.step s (.hk now)).1.links[j]? = some l') :
     (l'.core.window = 20000 ∧ l'.core.cong = {} ∧ l'.core.connected = false) ∨
+    (l'.core.window = 20000 ∧ l'.core.cong = l.core.cong ∧ l'.core.connected = false ∧
+      l.core.connId ∈ s.failBind) ∨
     (1000 ≤ l'.core.window ∧ l'.core.window ≤ 60000 ∧ l.core.window ≤ l'.core.window ∧
       l'.core.connected = l.core.connected ∧
       (s.cfg.classic = true → l'.core.window = l.core.window ∧ l'.core.cong = l.core.cong) ∧
       (l'.core.cong.fastRecovery = true → l.core.cong.fastRecovery = true) ∧
       (l.core.cong.fastRecovery = true → l'.core.cong.fastRecovery = false → 12000 ≤ l'.core.window)) := by
+  by_cases hfail : SysDir.hkFailsAt s now j
+  · -- the socket re-creation of this link's attempt fails: `record_attempt`, then `mark_for_recovery`
+    obtain ⟨l0, t, hl0, hmem, hpost⟩ := SysDir.hkFailsAt_link hfail
+    rw [hl] at hl0; cases hl0
+    have hl'' : (Sys.handleHousekeeping s now).1.links[j]? = some l' := hl'
+    rw [hpost] at hl''
+    cases hl''
+    obtain ⟨-, -, -, -, -, -, -, -, f9⟩ := Hk.failedLink_fields l now
+    have hra : (l.recordAttempt now).core = l.core := by unfold FLink.recordAttempt; split <;> rfl
+    refine .inr (.inl ⟨f9.window, ?_, f9.connected, hmem⟩)
+    show (l.recordAttempt now).core.cong = l.core.cong
+    rw [hra]
   have h := refines_at s _ j l l' hl hl'
   have hin : InRange l.core.window := hr l (List.mem_of_getElem? hl)
   have hn : ∀ op, op = SysDir.Op.mark ∨ op = .reg3 ∨ op = .nak ∨ op = .sack ∨ op = .gack →
       ¬ SysDir.evOps s (.hk now) j op := by
     intro op hop hA
-    have hA' : SysDir.hkOps s.cfg.classic op := hA
-    unfold SysDir.hkOps at hA'
-    rcases hop with rfl | rfl | rfl | rfl | rfl <;> rcases hA' with h | h | h | h | h | ⟨h, -⟩ <;> cases h
+    rcases (hA : SysDir.hkOpsAt s now j op) with hA' | ⟨-, hf⟩
+    · unfold SysDir.hkOps at hA'
+      rcases hop with rfl | rfl | rfl | rfl | rfl <;> rcases hA' with h | h | h | h | h | ⟨h, -⟩ <;> cases h
+    · exact hfail hf
   have hrv : SysDir.evOps s (.hk now) j .recover → s.cfg.classic = false := by
     intro hA
-    have hA' : SysDir.hkOps s.cfg.classic .recover := hA
-    unfold SysDir.hkOps at hA'
-    rcases hA' with h | h | h | h | h | ⟨-, h⟩
-    · cases h
-    · cases h
-    · cases h
-    · cases h
-    · cases h
-    · exact h
+    rcases (hA : SysDir.hkOpsAt s now j .recover) with hA' | ⟨hm, -⟩
+    · unfold SysDir.hkOps at hA'
+      rcases hA' with h | h | h | h | h | ⟨-, h⟩
+      · cases h
+      · cases h
+      · cases h
+      · cases h
+      · cases h
+      · exact h
+    · cases hm
   rcases reach_hk (hn _ (.inl rfl)) (hn _ (.inr (.inl rfl))) (hn _ (.inr (.inr (.inl rfl))))
     (hn _ (.inr (.inr (.inr (.inl rfl))))) (hn _ (.inr (.inr (.inr (.inr rfl))))) hrv hin h with a | a
   · exact .inl ⟨a.1, a.2.1, a.2.2.1⟩
-  · exact .inr ⟨a.1.1, a.1.2, a.2⟩
+  · exact .inr (.inr ⟨a.1.1, a.1.2, a.2⟩)
 
 /-- **(a) Direction, every event constructor, every link** (the summary; the per-arm theorems above say more):
-a client datagram, a flush and the configuration events never change a window except by the tear-down after a
+a client datagram, a flush and the configuration / injection events never change a window except by the tear-down after a
 failed send (20000); an uplink datagram that is not an SRTLA ACK (0x9100) and not REG_ERR (0x9210) never
 increases a window, one that is not an SRT NAK (0x8003) and not REG_ERR never decreases one, REG_ERR leaves
 every window or resets it to 20000; housekeeping never decreases a window except by tear-down to 20000, and in
@@ -794,6 +821,7 @@ theorem C06_direction_sys (s : Sys.Sys F) (e : Sys.Ev) (hr : RangeInv s) (j : Na
     | .setCfg _ => l' = l
     | .crit _ => l' = l
     | .failNext _ => l' = l
+    | .failBind _ => l' = l
     | .uplink _ _ data =>
         (Codec.getPacketTypeS data = none → l' = l) ∧
         ∀ pt, Codec.getPacketTypeS data = some pt →
@@ -813,6 +841,7 @@ theorem C06_direction_sys (s : Sys.Sys F) (e : Sys.Ev) (hr : RangeInv s) (j : Na
   | setCfg cfg => rw [show (Sys.step s (.setCfg cfg)).1.links = s.links from rfl, hl] at hl'; exact (Option.some.inj hl').symm
   | crit d => rw [show (Sys.step s (.crit d)).1.links = s.links from rfl, hl] at hl'; exact (Option.some.inj hl').symm
   | failNext cid => rw [show (Sys.step s (.failNext cid)).1.links = s.links from rfl, hl] at hl'; exact (Option.some.inj hl').symm
+  | failBind cid => rw [show (Sys.step s (.failBind cid)).1.links = s.links from rfl, hl] at hl'; exact (Option.some.inj hl').symm
   | uplink now cid data =>
     obtain ⟨h0, h⟩ := C06_direction_uplink s now cid data hr j l l' hl hl'
     refine ⟨h0, fun pt hpt => ?_⟩
@@ -829,7 +858,8 @@ theorem C06_direction_sys (s : Sys.Sys F) (e : Sys.Ev) (hr : RangeInv s) (j : Na
         · exact Int.le_of_eq (hreg3 q2).1.symm
         · exact Int.le_of_eq (hoth p1 q1 p2 q2).1.symm
   | hk now =>
-    rcases C06_direction_hk s now hr j l l' hl hl' with h | h
+    rcases C06_direction_hk s now hr j l l' hl hl' with h | h | h
+    · exact .inl h.1
     · exact .inl h.1
     · exact .inr ⟨h.2.2.1, fun hc => (h.2.2.2.2.1 hc).1⟩
 
@@ -843,8 +873,9 @@ variable {F : Type} [Scalar F]
 /-- **What each reset does to window and congestion state** (the functions the shell calls): a fresh link
 (`new_registering`) starts at 20000 with fast recovery off; `mark_for_recovery` (failed send, REG_ERR) sets the
 window to 20000 and KEEPS the congestion state — including the fast-recovery flag ("soft reset: preserves
-congestion stats"); `reset_for_reconnect` (housekeeping's reconnect) sets 20000 and clears the congestion
-state; REG3's `clear_pre_registration_state` KEEPS the window and clears the congestion state. -/
+congestion stats") — so does housekeeping's fallback when the socket re-creation of a reconnect attempt fails
+(`Hk.failedLink` = `record_attempt`, then `mark_for_recovery`); `reset_for_reconnect` (housekeeping's reconnect)
+sets 20000 and clears the congestion state; REG3's `clear_pre_registration_state` KEEPS the window and clears the congestion state. -/
 theorem C06_reset_ops (l : FLink F) (now id t : Nat) :
     (FLink.newRegistering id t : FLink F).core.window = 20000 ∧
     (FLink.newRegistering id t : FLink F).core.cong.fastRecovery = false ∧
@@ -852,18 +883,23 @@ theorem C06_reset_ops (l : FLink F) (now id t : Nat) :
     (l.resetForReconnect now).core.window = 20000 ∧ (l.resetForReconnect now).core.cong = {} ∧
     (Hk.reconnectLink l now).core.window = 20000 ∧ (Hk.reconnectLink l now).core.cong = {} ∧
     (l.clearPreRegistration now).core.window = l.core.window ∧ (l.clearPreRegistration now).core.cong = {} ∧
-    (Uplink.reg3Link l now).core.window = l.core.window ∧ (Uplink.reg3Link l now).core.cong = {} := by
+    (Uplink.reg3Link l now).core.window = l.core.window ∧ (Uplink.reg3Link l now).core.cong = {} ∧
+    (Hk.failedLink l now).core.window = 20000 ∧ (Hk.failedLink l now).core.cong = l.core.cong := by
   have hI := wconsts.2.2.1
-  refine ⟨hI, rfl, hI, rfl, hI, rfl, ?_, ?_, rfl, rfl, rfl, rfl⟩
+  have hra : (l.recordAttempt now).core = l.core := by unfold FLink.recordAttempt; split <;> rfl
+  refine ⟨hI, rfl, hI, rfl, hI, rfl, ?_, ?_, rfl, rfl, rfl, rfl, hI, ?_⟩
   · rw [SysDir.reconnectLink_core]; exact hI
   · rw [SysDir.reconnectLink_core]; rfl
+  · show (l.recordAttempt now).core.cong = l.core.cong
+    rw [hra]
 
 /-- **(b) Every tear-down anywhere in `Sys.step`**, for every event constructor and every link `j`.  Exactly
 one of four things happens to the link:
 
 1. it is not torn down: `connected` and "is registering" are what they were;
-2. `mark_for_recovery` — a failed threshold send while handling a client datagram, or REG_ERR arriving on this
-   link: window 20000, nothing logged / in flight / queued, not connected, registering; the congestion state
+2. `mark_for_recovery` — a failed threshold send while handling a client datagram, REG_ERR arriving on this
+   link, or housekeeping's reconnect of a timed-out link that is due when the socket re-creation FAILS (only
+   possible if a failure is injected for the link's conn id, `Sys.failBind`): window 20000, nothing logged / in flight / queued, not connected, registering; the congestion state
    (fast-recovery flag included) is KEPT;
 3. housekeeping's reconnect of a timed-out link that is due: the same clean state, congestion state CLEARED
    (fast recovery off);
@@ -876,7 +912,9 @@ theorem C06_reset_sys (s : Sys.Sys F) (e : Sys.Ev) (j : Nat) (l l' : FLink F)
       ((l'.core.cong = l.core.cong ∧
           ((∃ now pkt, e = .client now pkt) ∨
            (∃ now cid data, e = .uplink now cid data ∧ s.links.findIdx? (·.core.connId == cid) = some j ∧
-              l' = l.markForRecovery))) ∨
+              l' = l.markForRecovery) ∨
+           (∃ now, e = .hk now ∧ l.isTimedOut now = true ∧ l.shouldAttemptReconnect now = true ∧
+              l.core.connId ∈ s.failBind))) ∨
        (l'.core.cong = {} ∧ ∃ now, e = .hk now ∧ l.isTimedOut now = true ∧ l.shouldAttemptReconnect now = true))) ∨
     (∃ now cid data, e = .uplink now cid data ∧ s.links.findIdx? (·.core.connId == cid) = some j ∧
       l' = Uplink.reg3Link l now ∧ l'.core.window = l.core.window ∧ l'.core.cong = {} ∧ l'.core.connected = true) := by
@@ -899,7 +937,7 @@ theorem C06_reset_sys (s : Sys.Sys F) (e : Sys.Ev) (j : Nat) (l l' : FLink F)
     have hcl := Hk.clean_markForRecovery l
     rw [← hlE] at hcl
     exact .inr (.inl ⟨hcl.window, hcl.connected, by rw [hlE]; rfl, hcl.log, hcl.inFlight, hcl.queue,
-      .inl ⟨by rw [hlE]; rfl, .inr ⟨now, cid, data, rfl, hidx, hlE⟩⟩⟩)
+      .inl ⟨by rw [hlE]; rfl, .inr (.inl ⟨now, cid, data, rfl, hidx, hlE⟩)⟩⟩)
   | attempt now he hto hsa hla =>
     subst he
     obtain ⟨t, ht⟩ := hla
@@ -912,6 +950,22 @@ theorem C06_reset_sys (s : Sys.Sys F) (e : Sys.Ev) (j : Nat) (l l' : FLink F)
     have q : l'.queue = [] := by rw [ht]; exact f10.queue
     have cg : l'.core.cong = {} := by rw [ht]; exact f8
     exact .inr (.inl ⟨w, cn, ph, lg, inf, q, .inr ⟨cg, now, rfl, hto, hsa⟩⟩)
+  | attemptFailed now he hto hsa hfb hla =>
+    subst he
+    obtain ⟨t, ht⟩ := hla
+    obtain ⟨-, -, -, -, -, f6, -, -, f9⟩ := Hk.failedLink_fields l now
+    have hra : (l.recordAttempt now).core = l.core := by unfold FLink.recordAttempt; split <;> rfl
+    have w : l'.core.window = 20000 := by rw [ht]; exact f9.window
+    have cn : l'.core.connected = false := by rw [ht]; exact f9.connected
+    have ph : l'.core.phase = .registering := by rw [ht]; exact f6
+    have lg : l'.core.log = [] := by rw [ht]; exact f9.log
+    have inf : l'.core.inFlight = 0 := by rw [ht]; exact f9.inFlight
+    have q : l'.queue = [] := by rw [ht]; exact f9.queue
+    have cg : l'.core.cong = l.core.cong := by
+      rw [ht]
+      show (l.recordAttempt now).core.cong = l.core.cong
+      rw [hra]
+    exact .inr (.inl ⟨w, cn, ph, lg, inf, q, .inl ⟨cg, .inr (.inr ⟨now, rfl, hto, hsa, hfb⟩)⟩⟩)
 
 end reset
 
@@ -925,7 +979,7 @@ carrying an SRT NAK (type 0x8003) that left this link's window at 2000 or less (
 it turns OFF only at a window of 12000 or more — in an uplink event carrying an SRTLA ACK (0x9100) in enhanced
 mode, or in a housekeeping tick (time-based recovery in enhanced mode, or the reconnect reset to 20000) — or by
 REG3 (0x9202) arriving on this link (`clear_pre_registration_state`).  `mark_for_recovery` (failed send,
-REG_ERR) does NOT clear it. -/
+REG_ERR, housekeeping's fallback after a failed socket re-creation) does NOT clear it. -/
 theorem C06_fast_recovery_sys (s : Sys.Sys F) (e : Sys.Ev) (hr : RangeInv s) (j : Nat) (l l' : FLink F)
     (hl : s.links[j]? = some l) (hl' : (Sys.step s e).1.links[j]? = some l') :
     (l.core.cong.fastRecovery = false → l'.core.cong.fastRecovery = true →
@@ -959,6 +1013,10 @@ theorem C06_fast_recovery_sys (s : Sys.Sys F) (e : Sys.Ev) (hr : RangeInv s) (j 
     rw [show (Sys.step s (.failNext cid)).1.links = s.links from rfl, hl] at hl'
     have e' : l'.core.cong = l.core.cong := by rw [Option.some.inj hl']
     exact same e'
+  | failBind cid =>
+    rw [show (Sys.step s (.failBind cid)).1.links = s.links from rfl, hl] at hl'
+    have e' : l'.core.cong = l.core.cong := by rw [Option.some.inj hl']
+    exact same e'
   | uplink now cid data =>
     obtain ⟨h0, h⟩ := C06_direction_uplink s now cid data hr j l l' hl hl'
     cases hpt : Codec.getPacketTypeS data with
@@ -989,10 +1047,11 @@ theorem C06_fast_recovery_sys (s : Sys.Sys F) (e : Sys.Ev) (hr : RangeInv s) (j 
           rw [a.1] at f1; cases f1
       · exact same (hoth q1 q2 q3 q4).2.1
   | hk now =>
-    rcases C06_direction_hk s now hr j l l' hl hl' with a | a
+    rcases C06_direction_hk s now hr j l l' hl hl' with a | a | a
     · have hI : (12000 : Int) ≤ l'.core.window := by rw [a.1]; decide
       refine ⟨fun f0 f1 => ?_, fun f0 f1 => .inl ⟨hI, .inr ⟨now, rfl⟩⟩⟩
       rw [a.2.1] at f1; cases f1
+    · exact same a.2.1
     · obtain ⟨-, -, -, -, -, a6, a7⟩ := a
       refine ⟨fun f0 f1 => ?_, fun f0 f1 => .inl ⟨a7 f0 f1, .inr ⟨now, rfl⟩⟩⟩
       rw [a6 f1] at f0; cases f0
@@ -1048,6 +1107,7 @@ theorem C06_direction_run (s : Sys.Sys F) (pre : List Sys.Ev) (e : Sys.Ev)
     | .setCfg _ => l' = l
     | .crit _ => l' = l
     | .failNext _ => l' = l
+    | .failBind _ => l' = l
     | .uplink _ _ data =>
         (Codec.getPacketTypeS data = none → l' = l) ∧
         ∀ pt, Codec.getPacketTypeS data = some pt →
